@@ -80,8 +80,13 @@ def with_np_log(f, *a, **k):
     old = ref.np
     ref.np = NpProxy(old, log)
     out = exc = None
+
+    def forget():                      # (input-representation layer: a converted call that raised is repeated on the arguments as given)
+        for v in log.values():
+            del v[:]
     try:
-        out = call(f, *a, _t=30.0, **k)
+        with variant_retry(forget):
+            out = call(f, *a, _t=30.0, **k)
     except Timeout:
         raise
     except BaseException as e:
@@ -309,6 +314,7 @@ def run(ctx):
             return
         except Exception as e:
             exc = e
+        tie_variants(case)
         ctx.count('%s:%s' % (fn, fam)); ctx.count('%s:n=%d' % (fn, n)); ctx.count('%s:itr=%d' % (fn, itr))
         ctx.count('%s:weights=%s' % (fn, g['kind'])); ctx.count('%s:dtype=%s' % (fn, 'int' if g['isint'] else 'float'))
         draws = [int(e[3]) for e in rec.log]
@@ -393,6 +399,7 @@ def run(ctx):
         _verif.reset()
         case = {'fn': fn, 'W': A.tolist(), 'dtype': str(A.dtype), 'bin_swaps': bs, 'wei_freq': wf, 'seed': seed, 'family': fam}
         out, exc, log = with_np_log(getattr(bct, fn), A.copy(), bs, wf, seed=rec)
+        tie_variants(case)               # input-representation layer: the model comparison of this case is batched and comes later
         ctx.count('%s:%s' % (fn, fam)); ctx.count('%s:n=%d' % (fn, n)); ctx.count('%s:bin_swaps=%d' % (fn, bs))
         ctx.count('%s:wei_freq=%s' % (fn, wf if wf in WFS else 'random'))
         ctx.count('%s:weights=%s' % (fn, g['kind'])); ctx.count('%s:dtype=%s' % (fn, 'int' if g['isint'] else 'float'))
